@@ -12,6 +12,8 @@ import (
 type GCase struct {
 	Adj  [][]int `json:"adj"`
 	Root int     `json:"root"`
+	// Light skips the formatting checks (Dot) for the large complete families.
+	Light bool `json:"light,omitempty"`
 }
 
 func (c *GCase) g() graph.IntGraph {
